@@ -242,6 +242,8 @@ class Scanner:
                           "time.strftime", "time.ctime", "time.asctime") or last in ("utcnow", "today") or \
                         (last == "now" and "datetime" in dn) or dn in ("datetime.now", "datetime.datetime.now"):
                     classes.add(TIME); notes.append(f"calls {dn or last}")
+                if last in ("stat", "lstat", "getmtime", "getctime", "getatime", "utime", "scandir") or dn in ("os.stat", "os.lstat"):
+                    classes.add(TIME); notes.append(f"calls {dn or last} (file time stamps / metadata are not part of the declared inputs)")
                 if (dn in ("gzip.compress", "gzip.GzipFile", "gzip.open", "GzipFile") or last == "GzipFile") and "mtime" not in kw:
                     classes.add(TIME); notes.append(f"{dn} without mtime (header embeds the current time)")
                 if dn in ("os.getcwd", "os.getcwdb", "os.path.abspath", "os.path.realpath", "os.path.expanduser",
@@ -723,6 +725,9 @@ class LangConv:
                 if attr not in NUNAVUT_ATTRS:
                     raise TieBroken(f"{self.lang}:{scope[0]}:{node.lineno}: attribute nunavut.{attr} is not classified")
                 c = set(NUNAVUT_ATTRS[attr])
+                if attr == "template_sets":
+                    sc_, notes_ = self.sc.scan_name("get_template_sets")
+                    c |= (sc_ - {PS_MEMO})
                 if attr == "platform_version" and self.facts["platform_version_audit_off_only"]:
                     log["removed"] |= {PLATFORM}
                     log["notes"].append("platform_version holds only python_version when auditing is off (counted as tool version)")
